@@ -132,9 +132,24 @@ def evStep (armed : List Fd) (fd : Fd) (acc : St × List Tok) (f : Fd) : St × L
        if (f == fd && e.r) then acc.2 ++ [e.tok] else acc.2)
     else acc
 
+/-- the order in which the kernel hands out the events of one poll: entries are queued when they
+become ready — armed entries with write interest at arming time, the target's readability last -/
+def pollOrder (s : St) (fd : Fd) : List Fd :=
+  s.armed.filter (fun f => (aget s.K f).any (·.w)) ++
+    (if has s.armed fd && (aget s.K fd).any (·.w) then [] else [fd])
+
 def readyRead (s : St) (fd : Fd) : St × List Tok :=
-  ({ ((s.armed ++ (if has s.armed fd then [] else [fd])).foldl (evStep s.armed fd) (s, [])).1 with armed := [] },
-   ((s.armed ++ (if has s.armed fd then [] else [fd])).foldl (evStep s.armed fd) (s, [])).2)
+  ({ ((pollOrder s fd).foldl (evStep s.armed fd) (s, [])).1 with armed := [] },
+   ((pollOrder s fd).foldl (evStep s.armed fd) (s, [])).2)
+
+/-- the tokens of the events of that same poll that carry the *writable* flag: every entry that
+gets an event (the target if it has read interest, every freshly armed entry with write interest)
+reports writable iff it has write interest (a socket is always writable) -/
+def writableToks (s : St) (fd : Fd) : List Tok :=
+  (pollOrder s fd).filterMap (fun f =>
+    match aget s.K f with
+    | none => none
+    | some e => if ((f == fd && e.r) || (e.w && has s.armed f)) && e.w then some e.tok else none)
 
 inductive Op where
   | addRead (fd : Fd) (tok : Tok) | addWrite (fd : Fd) (tok : Tok)
